@@ -106,6 +106,24 @@ def check_case(ctx, cs):
             ok, got = _try(ctx, cname + ".derivatives", tg + ["find_span_func=binsearch"], small, lambda: objb.derivatives(*prm, order=order))
             if ok:
                 check_table(ctx, cname + ".derivatives", tg + ["find_span_func=binsearch"], small, got, o, sh, pd, order)
+        # the same shape on the knot range [0, 2^-24] (kept as it is): all knot differences are below 1e-7; derivatives of order k
+        # scale by 2^(24 k) (affine invariance of the definition, T_Affine in MC_C17)
+        if all(U[0] == [0, 1] and U[-1] == [1, 1] for U in sh["kv"]) and order <= 2:
+            a_ = 2.0 ** -24
+            sh_s = dict(sh, kv=[[[k[0], k[1] * 2 ** 24] for k in U] for U in sh["kv"]])
+            evs = [("default", None)] + ([("alternative", evaluators.CurveEvaluator2() if pd == 1 else evaluators.SurfaceEvaluator2())] if not sh["rat"] else [])
+            for ename, ev in evs:
+                t2 = tg + ["knot_range=2^-24", "evaluator=" + ename]
+                ok, got = _try(ctx, cname + ".derivatives", t2, small, lambda: (build(sh_s, normalize_kv=False, evaluator=ev) if ev is not None else build(sh_s, normalize_kv=False)).derivatives(*[x * a_ for x in prm], order=order))
+                if ok:
+                    try:
+                        if pd == 1:
+                            resc = [[x * a_ ** k for x in got[k]] for k in range(order + 1)]
+                        else:
+                            resc = [[[x * a_ ** (k + l) for x in got[k][l]] for l in range(len(got[k]))] for k in range(len(got))]
+                    except Exception:
+                        resc = got
+                    check_table(ctx, cname + ".derivatives", t2, small, resc, o, sh, pd, order)
         if not sh["rat"]:
             ev2 = evaluators.CurveEvaluator2() if pd == 1 else evaluators.SurfaceEvaluator2()
             ok, obj2 = _try(ctx, cname + ".build", tg, small, lambda: build(sh, evaluator=ev2))
@@ -186,9 +204,29 @@ def check_case(ctx, cs):
                     if ok and not (close_seq(list(r[0]), p0, 1e-8) and close_seq(list(r[1]), du, 1e-8) and close_seq(list(r[2]), dv, 1e-8)):
                         ctx.violate("operations.tangent", tg, small, {"expected": [p0, du, dv], "got": r})
                     n = cross(du, dv)
+                    un = None
                     ok, r = _try(ctx, "operations.normal", tg, small, lambda: operations.normal(obj, list(prm), normalize=False))
                     if ok and not (close_seq(list(r[0]), p0, 1e-8) and close_seq(list(r[1]), n, 1e-7)):
                         ctx.violate("operations.normal", tg, small, {"expected": [p0, n], "got": r})
+                    # the same surface in a very small unit: the normalised normal is still a unit vector in the same direction
+                    if un is None:
+                        un_ = unit(n)
+                    else:
+                        un_ = un
+                    if un_ is not None and math.sqrt(sum(x * x for x in n)) > 1e-6:
+                        def tiny_normal():
+                            ob = build(sh)
+                            operations.scale(ob, 2.0 ** -20, inplace=True)
+                            return operations.normal(ob, list(prm), normalize=True), operations.tangent(ob, list(prm), normalize=True)
+                        ok, r = _try(ctx, "operations.normal", tg + ["normalize", "coordinates=2^-20"], small, tiny_normal)
+                        if ok:
+                            v = list(r[0][1])
+                            if abs(sum(x * x for x in v) - 1.0) > 1e-9 or not close_seq(v, un_, 1e-7):
+                                ctx.violate("operations.normal", tg + ["normalize", "coordinates=2^-20"], small, {"expected": un_, "got": v})
+                            for vec, d in ((r[1][1], du), (r[1][2], dv)):
+                                ud = unit(d)
+                                if ud is not None and not close_seq(list(vec), ud, 1e-8):
+                                    ctx.violate("operations.tangent", tg + ["normalize", "coordinates=2^-20"], small, {"expected": ud, "got": list(vec)})
                     ok, r = _try(ctx, "operations.tangent", tg + ["param_list"], small, lambda: operations.tangent(obj, [list(prm), list(prm)], normalize=False))
                     if ok and not (len(r) == 2 and all(len(x) == 3 and close_seq(list(x[0]), p0, 1e-8) and close_seq(list(x[1]), du, 1e-8)
                                                        and close_seq(list(x[2]), dv, 1e-8) for x in r)):
